@@ -17,8 +17,8 @@ META = {
         "NOT decided: the selection probabilities over all case permutations (a statement about runtime distributions). (R08.6) Lexicase::new stores the configured number of test cases. The head/tail roles of the per-case filter are recognised in their equivalent spellings (split_first; first() with iter().skip(1) or [1..]; tail.is_empty() or len() == 1)."),
     "rules": {
         "R08.1": "case indices = collect(0..self.num_test_cases); SliceRandom::shuffle(cases, rng) precedes into_iter(cases) of the filtering loop",
-        "R08.2": "per-case filter: get(results, current case) for both sides; Ord::cmp(this, best); Less/Equal/Greater arm effects; winners seeded with the first candidate; mem::swap(candidates, winners) at the end of each case",
-        "R08.3": "loop exits: cases exhausted | break iff remaining.is_empty() | error return",
+        "R08.2": "per-case filter: get(results, current case) for both sides; Ord::cmp(this, best); Less/Equal/Greater arm effects; winners seeded with the first candidate; mem::swap(candidates, winners) at the end of each case; the candidate loop is left only when its iterator is exhausted",
+        "R08.3": "loop exits: cases exhausted | break iff remaining.is_empty() | error return; no success exit while several candidates and further cases remain",
         "R08.4": "SliceRandom::shuffle(candidates, rng) precedes first() on every non-error return",
         "R08.6": "the configured number of test cases is the number used: Lexicase::new stores its argument in num_test_cases",
         "R08.5": "Error<T>::cmp / partial_cmp reverse exactly once (C15 R15.2)",
@@ -279,6 +279,15 @@ def check(ctx):
         last_calls = p.calls()
         ok = ok and last_calls[-1] == sw
     ctx.check(ok, "R08.2", "survivors-replace-candidates", "mem::swap(candidates, winners) is the last action of a case iteration", at)
+    # every remaining candidate is compared: a case iteration is finished (the swap is reached) only by the candidate
+    # iterator running out, never from inside an iteration (an added `break` would leave later candidates uncompared and dropped)
+    cut = []
+    for p in swaps:
+        inner = [c for c in p.conds if c[0][0] == "discr" and callee_is(c[0][1], "Iterator::next") and mentions_tail(c[0][1])]
+        if not inner or any(c[1] != 0 for c in inner):
+            cut.append(p)
+    ctx.check(bool(swaps) and not cut, "R08.2", "candidate-loop-left-only-when-exhausted", "%d path(s) reach the swap, each through next() == None of the candidate iteration" % len(swaps), at,
+              bad_detail="a case iteration is finished from inside the candidate loop (not by its iterator running out): [%s]" % "; ".join(cond_str(p)[-260:] for p in cut[:2]))
 
     # ---- R08.3 loop exits ---------------------------------------------------
     def single(p):
@@ -290,6 +299,11 @@ def check(ctx):
     okb = bool(brk) and all(p.end == "return" and not any(callee_is(c, "Vec::push", "Vec::clear", "mem::swap") for c in p.calls()) for p in brk)
     ctx.check(okb, "R08.3", "break-iff-remaining-empty", "%d break paths, all guarded by `no candidate besides the first` and effect-free" % len(brk), at)
     ctx.check(len(cont) >= 4, "R08.3", "filtering-continues-when-remaining-nonempty", "%d paths continue filtering with is_empty == false" % len(cont), at)
+    # ... and none of them leaves the case loop: with two or more candidates left and cases left, the only ways out are the
+    # `?` exits checked below (an added "they are all tied anyway" / "good enough" break is a success exit that skips cases)
+    early = [p for p in cont if p.end == "return" and not is_err_return(p)]
+    ctx.check(not early, "R08.3", "no-success-exit-while-candidates-and-cases-remain", "0 of %d continuing paths return" % len(cont), at,
+              bad_detail="a path returns a selection although more than one candidate and further cases remain: [%s]" % "; ".join(cond_str(p)[-260:] for p in early[:2]))
     exh = [p for p in paths if p.end == "return" and not is_err_return(p) and single(p) is None]
     ok_exh = bool(exh)
     for p in exh:
